@@ -529,14 +529,21 @@ pub fn gen_invocation(
         None
     } else if project.input_is_file {
         Some(
-            (*rng.pick(&["out.lua", "out", "dist/result.luau", "existing-dir", "new/dir"]))
-                .to_owned(),
+            (*rng.pick(&[
+                "out.lua",
+                "out",
+                "dist/result.luau",
+                "existing-dir",
+                "new/dir",
+                "existing.dir",
+            ]))
+            .to_owned(),
         )
     } else {
         Some((*rng.pick(OUTPUT_DIRS)).to_owned())
     };
     if let Some(output) = &output {
-        let is_existing_dir_case = output == "existing-dir";
+        let is_existing_dir_case = output == "existing-dir" || output == "existing.dir";
         if is_existing_dir_case && backend == Backend::SimFs {
             extra.push(FsEntry {
                 path: output.clone(),
